@@ -47,6 +47,8 @@ type startEvent struct {
 	activated   atomic.Bool
 	idGenerator id.IGenerator
 	satisfier   *logic.CatchEventSatisfier
+	// stopped is closed when the node's loop ends
+	stopped chan struct{}
 }
 
 func newStartEvent(wr *wiring, element *schema.StartEvent, idGenerator id.IGenerator) (evt *startEvent, err error) {
@@ -69,6 +71,7 @@ func newStartEvent(wr *wiring, element *schema.StartEvent, idGenerator id.IGener
 		activated:   atomic.Bool{},
 		idGenerator: idGenerator,
 		satisfier:   logic.NewCatchEventSatisfier(element, wr.eventDefinitionInstanceBuilder),
+		stopped:     make(chan struct{}),
 	}
 	err = evt.eventEgress.RegisterEventConsumer(evt)
 	if err != nil {
@@ -79,6 +82,7 @@ func newStartEvent(wr *wiring, element *schema.StartEvent, idGenerator id.IGener
 
 func (evt *startEvent) run(ctx context.Context, sender tracing.ISenderHandle) {
 	defer sender.Done()
+	defer close(evt.stopped)
 
 	for {
 		select {
@@ -120,7 +124,12 @@ func (evt *startEvent) ConsumeEvent(ev event.IEvent) (result event.ConsumptionRe
 		result = event.Consumed
 		return
 	}
-	evt.mch <- eventMessage{event: ev}
+	select {
+	case evt.mch <- eventMessage{event: ev}:
+	case <-evt.stopped:
+		// the loop has ended (the instance was cancelled): nobody drains the inbox any
+		// more, the event is dropped instead of blocking the caller
+	}
 	result = event.Consumed
 	return
 }
